@@ -29,12 +29,15 @@ def rat_rot(d, angle, reflect=False, rng=None):
     return Q
 
 
-def measures(X, Y, n_local, est_kind, train_idx=None, test_idx=None):
+def measures(X, Y, n_local, est_kind, train_idx=None, test_idx=None, user_scaler=False):
     from skmatter.metrics import (global_reconstruction_distortion, global_reconstruction_error, local_reconstruction_error,
                                   pointwise_global_reconstruction_distortion, pointwise_global_reconstruction_error,
                                   pointwise_local_reconstruction_error)
     from skmatter.linear_model import Ridge2FoldCV
     kw = dict(train_idx=train_idx, test_idx=test_idx)
+    if user_scaler:
+        from skmatter.preprocessing import StandardFlexibleScaler
+        kw["scaler"] = StandardFlexibleScaler(column_wise=True)      # user-supplied scaler (per-column standardisation)
 
     def est():
         if est_kind == "default":
@@ -71,13 +74,15 @@ def case(cid, rng, sc):
     est_kind = "fixed" if kind == "rotate-target" else ("default" if rng.random() < 0.6 else "fixed")
     perm = rng.permutation(n)
     explicit = rng.random() < 0.5
+    # a per-column scaler is not rotation invariant: only with shifts and uniform rescalings
+    user_scaler = kind in ("scale-source", "scale-target", "shift-source", "shift-target") and rng.random() < 0.4
     tr, te = (perm[:12], perm[12:]) if explicit else (None, None)
-    c = {"id": cid, "kind": kind, "dx": dx, "dy": dy, "est": est_kind, "raised": "", "X": np.round(X, 6).tolist(), "Y": np.round(Y, 6).tolist(),
+    c = {"id": cid, "kind": kind, "dx": dx, "dy": dy, "est": est_kind, "user_scaler": user_scaler, "raised": "", "X": np.round(X, 6).tolist(), "Y": np.round(Y, 6).tolist(),
          "base": {}, "trans": {}, "gre_lin": 0, "grd_orth": 0, "gre_train": 0, "lre_all": [], "pgre_all": []}
     try:
         with warnings.catch_warnings():
             warnings.simplefilter("ignore")
-            c["base"] = measures(X, Y, n_local, est_kind, tr, te)
+            c["base"] = measures(X, Y, n_local, est_kind, tr, te, user_scaler)
             X2, Y2 = X, Y
             ang = tuple(sc["angle"])
             if kind == "rotate-source":
@@ -94,7 +99,7 @@ def case(cid, rng, sc):
                 Y2 = Y + rng.integers(-9, 10, size=dy)
             elif kind == "rotate-target":
                 Y2 = Y @ rat_rot(dy, ang, rng=rng)
-            c["trans"] = measures(X2, Y2, n_local, est_kind, tr, te)
+            c["trans"] = measures(X2, Y2, n_local, est_kind, tr, te, user_scaler)
             # special constructions
             Alin = rng.integers(-3, 4, size=(dx, dy)).astype(float)
             if not np.any(Alin):
